@@ -151,4 +151,4 @@ def run(ctx, flavour, types, nprog, nins, tag=None):
     events, plan = lanes.record(ctx, "prog", plan, tag, extra_flags=("-I" + gen_dir(),))
     ctx.log("%s: %d programs, %d events" % (tag, len(plan), len(events)))
     lanes.validate(ctx, "T_Prog.tla", events, tag, plan_lines=plan, corrupt=corrupt)
-    ctx.cov.setdefault("programs", {})[tag] = dict(programs=len(plan), instructions=sum((len(e["d"]) - 1) // 6 for e in events), events=len(events))
+    ctx.cov.setdefault("program_machine", {})[tag] = dict(programs=len(plan), instructions=sum((len(e["d"]) - 1) // 6 for e in events), events=len(events))
